@@ -295,4 +295,3 @@ func vfRestartAuth() (err error) {
 
 	return err
 }
-
